@@ -28,7 +28,7 @@ pub struct CArgs { pub verif_fields: Ghost<Seq<int>> }
 pub struct CEnvs { pub verif_snapshot: Ghost<int> }
 /// `env.traps.disable_internal_dispositions(&env.system)` (unit trap)
 #[verifier::external_body]
-pub fn verif_disable_internal<S>(env: &mut Env<S>) -> (r: Result<(), Errno>)
+pub fn verif_disable_internal<S>(env: &mut Env<S>) -> (r: std::result::Result<(), Errno>)
     ensures final(env).log@ == old(env).log@.push(Ev::DisabledInternal), final(env).verif_exported@ == old(env).verif_exported@, final(env).exit_status == old(env).exit_status
 { unimplemented!() }
 #[verifier::external_body]
@@ -45,4 +45,58 @@ pub fn verif_execve<S>(env: &mut Env<S>, path: &CString, args: &CArgs, envs: &CE
 #[verifier::external_body]
 pub fn verif_fall_back_on_sh<S>(env: &mut Env<S>, path: CString, args: CArgs, envs: CEnvs)
     ensures final(env).log@ == old(env).log@.push(Ev::FellBack { path: path.verif_id }), final(env).exit_status == old(env).exit_status
+{ unimplemented!() }
+// ---- run_external_utility_in_subshell ----
+pub trait BlockSignals {} pub trait Close {} pub trait Dup {} pub trait Exit {} pub trait Fork {} pub trait GetPid {} pub trait Open {}
+pub trait RunBlocking {} pub trait RunUnblocking {} pub trait SendSignal {} pub trait SetPgid {} pub trait SetRlimit {} pub trait TcSetPgrp {}
+pub trait Wait {} pub trait WaitForSignals {}
+pub struct Divert { pub verif_opaque: u8 }
+pub type Result<T = ()> = std::ops::ControlFlow<Divert, T>;
+pub use std::ops::ControlFlow::{Break, Continue};
+#[derive(Clone, Copy)]
+pub struct Pid(pub i32);
+#[derive(Clone, Copy)]
+pub struct ProcessResult { pub verif_opaque: u8 }
+pub struct JobControl { pub verif_opaque: u8 }
+pub struct StartSubshellError { pub utility: Field, pub errno: Errno }
+impl Clone for Field { #[verifier::external_body] fn clone(&self) -> (r: Field) ensures r.verif_id == self.verif_id { unimplemented!() } }
+impl Clone for Location { #[verifier::external_body] fn clone(&self) -> (r: Location) { unimplemented!() } }
+/// the two error reporters the caller hands in (function pointers returning boxed futures in the code)
+pub struct StartErrorHandler { pub verif_opaque: u8 }
+pub struct ExecErrorHandler { pub verif_opaque: u8 }
+pub enum XEv { Child { path: int, args: Seq<int>, controls_jobs: bool }, JobStatus { pid: Pid, result: ProcessResult, named: bool, answer: Result<ExitStatus> }, StartErrorReported { utility: int },
+    Replaced { path: int, args: Seq<int> }, ExecErrorReported { path: int } }
+pub struct XEnv<S> { pub xlog: Ghost<Seq<XEv>>, pub verif_controls_jobs: bool, pub system: S }
+impl<S> XEnv<S> {
+    #[verifier::external_body]
+    pub fn controls_jobs(&self) -> (r: bool) ensures r == self.verif_controls_jobs { unimplemented!() }
+}
+impl StartErrorHandler {
+    #[verifier::external_body]
+    pub fn call<S>(&self, env: &mut XEnv<S>, error: StartSubshellError)
+        ensures final(env).xlog@ == old(env).xlog@.push(XEv::StartErrorReported { utility: error.utility.verif_id }), final(env).verif_controls_jobs == old(env).verif_controls_jobs
+    { unimplemented!() }
+}
+impl ExecErrorHandler {
+    #[verifier::external_body]
+    pub fn call<S>(&self, env: &mut XEnv<S>, error: ReplaceCurrentProcessError, location: Location)
+        ensures final(env).xlog@ == old(env).xlog@.push(XEv::ExecErrorReported { path: error.path.verif_id })
+    { unimplemented!() }
+}
+#[verifier::external_body]
+pub fn to_job_name(args: &Vec<Field>) -> (r: String) { unimplemented!() }
+/// replace_current_process (verified above against the event log of Env); here: only returns when it failed, with the path it was given
+#[verifier::external_body]
+pub fn verif_replace<S>(env: &mut XEnv<S>, path: CString, args: Vec<Field>) -> (e: ReplaceCurrentProcessError)
+    ensures final(env).xlog@ == old(env).xlog@.push(XEv::Replaced { path: path.verif_id, args: field_ids(args@) }), e.path == path
+{ unimplemented!() }
+/// `Config::foreground().start_and_wait(env, <the closure>)` (units subshellstart / startwait)
+#[verifier::external_body]
+pub fn verif_start_and_wait<S>(env: &mut XEnv<S>, path: &CString, args: &Vec<Field>) -> (r: std::result::Result<(Pid, ProcessResult), Errno>)
+    ensures final(env).xlog@ == old(env).xlog@.push(XEv::Child { path: path.verif_id, args: field_ids(args@), controls_jobs: old(env).verif_controls_jobs }), final(env).verif_controls_jobs == old(env).verif_controls_jobs
+{ unimplemented!() }
+/// job.rs handle_job_status(env, pid, result, || job_name) (unit jobstatus)
+#[verifier::external_body]
+pub fn verif_handle_job_status<S>(env: &mut XEnv<S>, pid: Pid, result: ProcessResult, job_name: String) -> (r: Result<ExitStatus>)
+    ensures final(env).xlog@ == old(env).xlog@.push(XEv::JobStatus { pid, result, named: job_name@.len() > 0, answer: r })
 { unimplemented!() }
